@@ -5,6 +5,63 @@ sys.path.insert(0, os.path.join(os.path.dirname(os.path.abspath(__file__)), '..'
 from vlib import *
 import nvmjobs, c11
 
+NF = 2
+def order_job(ns, nu, fill=False):
+    return Job(name='c19_deforder%s_s%d_u%d' % ('_fill' if fill else '', ns, nu), harness='c19_order.c', sources=['src/transpiler.c'],
+               defines=dict({'NS': ns, 'NU': nu}, **({'FILL': 1} if fill else {})),
+               src_defines=dict({'static': ''}, **({'malloc': 'verif_malloc'} if fill else {})),
+               src_remove_bodies=['emit_struct_definition_single', 'emit_union_definition_single', 'emit_generic_union_instantiation', 'sb_append'],
+               unwind=ns + nu + 2, unwindset=['strcmp.0:3'] + (['verif_malloc.0:262'] if fill else []), timeout=600, replay='custom' if fill else 'none', group='c_definition_order', must_witness=['ordering done'],
+               desc={'structs': ns, 'unions': nu, 'fields_per_struct': NF,
+                     'fresh_heap_memory': 'one arbitrary fill byte per run (the glibc malloc.perturb model; counterexamples replay on the real nanoc_c); source-expressible graphs only' if fill else 'arbitrary contents, independent in the two runs (not installable in a real process: no replay)',
+                     'symbolic': 'for every field: plain / struct / union / composite without a recorded name, and which of the types (or an undefined name) it refers to - i.e. every dependency graph on %d nodes incl. self references, cycles, duplicate edges; contents of every malloc result, independently in the two runs' % (ns + nu),
+                     'stubs': 'emit_struct_definition_single / emit_union_definition_single / emit_generic_union_instantiation record the definition they are asked to write (the text of one definition is not the subject); TU compiled with -Dstatic= so the static function is callable'})
+
+
+def order_replay(job, failed, inputs, outdir):
+    """Replay on the real nanoc: the counterexample's dependency graph as a source file, transpiled (nanoc_c -S) under
+    different fill bytes for fresh heap memory; reproduced iff the generated C differs."""
+    sys.path.insert(0, os.path.join(VERIF, 'gen'))
+    import e2
+    ns, nu = job.defines['NS'], job.defines['NU']; nt = ns + nu
+    names = ['Aa', 'Bb', 'Cc', 'Dd', 'Ee', 'Ff']
+    def arr(n):
+        return [inputs.get('%s[%d]' % (n, k), 0) for k in range(nt * NF)]
+    comp, dep = arr('in_comp'), arr('in_dep')
+    def fld(i, f):
+        k = i * NF + f
+        c = comp[k] if k < len(comp) else 0; d = dep[k] if k < len(dep) else 0
+        return names[d] if (c in (1, 2) and d < nt) else 'int'
+    src = ''
+    for i in range(ns):
+        src += 'struct %s {\n    f0: %s,\n    f1: %s\n}\n\n' % (names[i], fld(i, 0), fld(i, 1))
+    for u in range(nu):
+        src += 'union %s {\n    V%d { g: %s }\n}\n\n' % (names[ns + u], u, fld(ns + u, 0))
+    src += 'fn main() -> int {\n    return 0\n}\nshadow main { assert (== (main) 0) }\n'
+    tools = e2.build_tools()
+    path = os.path.join(outdir, 'replay.nano'); open(path, 'w').write(src)
+    outs = {}
+    def tun(fillbyte):
+        pv = (fillbyte ^ 0xFF) & 0xFF
+        if pv == 0: pv = 1          # perturb=0 switches the fill off; 0xFE is the nearest expressible fill byte
+        return {'GLIBC_TUNABLES': 'glibc.malloc.tcache_count=0:glibc.malloc.perturb=%d' % pv}
+    f0, f1 = inputs.get('in_fill[0]', 0), inputs.get('in_fill[1]', 0xFF)
+    # the solver's two fill bytes, plus 0x00 / 0x01 / 0xfe: a bool that is neither 0 nor 1 is read inconsistently by
+    # compiled code (gcc turns !b into b^1), so the canonical values are tried as well; the oracle is the property itself
+    # (identical output under every fill byte)
+    for tag, envx in (('run0_fill%02x' % f0, tun(f0)), ('run1_fill%02x' % f1, tun(f1)), ('fill00', tun(0)), ('fill01', tun(1)), ('fillfe', tun(0xFE))):
+        g = path + '.genC'
+        if os.path.exists(g): os.remove(g)
+        rc, so, se = sh([os.path.join(tools, 'bin', 'nanoc_c'), path, '-o', os.path.join(outdir, 'replay.bin'), '-S'], timeout=120, cwd=tools, env=dict(os.environ, TMPDIR=outdir, **envx))
+        txt = open(g).read() if os.path.exists(g) else ''
+        outs[tag] = (rc, [l.split()[2] for l in txt.splitlines() if l.startswith('typedef struct nl_')], hashlib.sha256(txt.encode()).hexdigest()[:16])
+    open(os.path.join(outdir, 'output.txt'), 'w').write(src + '\n' + '\n'.join('%s: exit=%s definition order=%s sha256=%s' % ((k,) + v) for k, v in outs.items()) + '\n')
+    open(os.path.join(outdir, 'cmd.txt'), 'w').write('GLIBC_TUNABLES=glibc.malloc.tcache_count=0:glibc.malloc.perturb=<fill byte ^ 0xFF> nanoc_c replay.nano -o replay.bin -S ; compare replay.nano.genC\n')
+    if len(set(v[2] for v in outs.values())) > 1 or len(set(v[0] for v in outs.values())) > 1:
+        return True, 'reproduced on the real nanoc_c: generated C differs with the fill byte of fresh heap memory: ' + '; '.join('%s -> %s' % (k, ' '.join(v[1])) for k, v in outs.items())
+    return False, 'the real nanoc_c produced identical C under all fill bytes for this graph (the source-level program may not express the counterexample: undefined or unnamed composite fields)'
+
+
 def main():
     tier = tier_arg(); t0 = time.time()
     ops = c11.opcode_bytes()
@@ -15,17 +72,21 @@ def main():
                         desc={'opcode': ops[b], 'symbolic': 'two complete DecodedInstruction objects agreeing only on the operand values the table selects; two different output buffers'}))
     for sh in nvmjobs.shapes(tier):
         jobs.append(nvmjobs.rt_job(sh, 4, tier, 'c19'))
+    for (ns, nu) in ([(2, 0), (3, 0), (2, 1), (3, 1)] + ([(4, 0), (4, 1), (3, 2)] if tier == 'thorough' else [])):
+        jobs.append(order_job(ns, nu)); jobs.append(order_job(ns, nu, fill=True))
     run_jobs(jobs)
     meta = {
-        'functions_encoded': ['isa.c: isa_encode, isa_get_info, isa_operand_size', 'nvm_format.c: nvm_serialize and section writers, nvm_add_* builders'],
-        'bounds': {'instructions': 'every defined opcode, all operand values, all contents of unused bytes', 'modules': 'the C10 module shapes, all contents, all values of the stale bookkeeping fields'},
-        'outside': ['transpile_to_c and codegen_compile as wholes (string-builder code over the full AST, hash-table iteration order there) - NOT decided: the generated-C half of C19 and the module-path/uninitialised-memory dependences the seeding agents built (C19/a, C19/b) lie in code this technique did not reach in the time available',
+        'functions_encoded': ['isa.c: isa_encode, isa_get_info, isa_operand_size', 'nvm_format.c: nvm_serialize and section writers, nvm_add_* builders',
+                              'transpiler.c: generate_struct_and_union_definitions_ordered, find_composite_type_item (definition order of the generated C)'],
+        'bounds': {'instructions': 'every defined opcode, all operand values, all contents of unused bytes', 'modules': 'the C10 module shapes, all contents, all values of the stale bookkeeping fields',
+                   'definition_order': '2-3 structs (thorough: 4) with 2 fields each and 0-1 unions (thorough: 2), every dependency graph; generic union instantiations not covered'},
+        'outside': ['transpile_to_c and codegen_compile as wholes (string-builder code over the full AST, hash-table iteration order there) - NOT decided beyond the definition-order kernel: the module-path dependence a seeding agent built (C19/a) lies in code this technique did not reach in the time available',
                     'diagnostics text, temp-file names, ASLR/env variation of the whole binaries', 'codegen.c emit_op (static function inside the 3000-line code generator TU)'],
         'assumptions': ['allocation does not fail', 'CRC uninterpreted (same bytes => same checksum)'],
         'stubs': ['nvm_crc32 uninterpreted', 'getenv/time/getpid/rand ghosts (must not be called)'],
         'explanation': 'Self-composition: the same function is run on two inputs that agree on every semantically relevant field and are otherwise unconstrained (uninitialised memory = arbitrary in CBMC); the outputs must be byte-identical.',
     }
-    sys.exit(finish('C19', tier, 'model_checking', jobs, meta, t0))
+    sys.exit(finish('C19', tier, 'model_checking', jobs, meta, t0, custom_replay=order_replay))
 
 if __name__ == '__main__':
     main()
